@@ -457,7 +457,7 @@ Proof. intros s ths G. destruct G. constructor; auto. Qed.
 
 Lemma free_start_good : forall s ths t th i v k, Good s ths -> nth_error ths t = Some th -> tpc th = Idle ->
   nth_error (held th) i = Some (v, k) ->
-  Good s (set_nth t (cont th (FStore v (hv s) (hk s)) (remove_nth i (held th)) (taken th)) ths).
+  Good s (set_nth t (with_base (cont th (FStore v (hv s) (hk s)) (remove_nth i (held th)) (taken th)) (hk s)) ths).
 Proof.
   intros s ths t th i v k G Hn Hpc Hi. destruct (g_thr _ _ G _ _ Hn) as (A & B & _ & Qa).
   apply (good_local s ths t th); auto.
@@ -470,7 +470,7 @@ Qed.
 
 Lemma finish_start_good : forall s ths t th v k r, Good s ths -> nth_error ths t = Some th -> tpc th = Idle ->
   taken th = (v, k) :: r ->
-  Good (inc_fin s) (set_nth t (cont th (FStore (finish_value v) (hv s) (hk s)) (held th) r) ths).
+  Good (inc_fin s) (set_nth t (with_base (cont th (FStore (finish_value v) (hv s) (hk s)) (held th) r) (hk s)) ths).
 Proof.
   intros s ths t th v k r G Hn Hpc Ht. destruct (g_thr _ _ G _ _ Hn) as (A & B & _ & Qa).
   apply good_inc_fin. apply (good_local s ths t th); auto.
@@ -771,9 +771,9 @@ Qed.
 
 Lemma TI_local : forall s th p a', TI s th -> TIpc s p ->
   (forall v, In v (acc_values a') -> In v (acc_values (accs th))) ->
-  forall pg rs, TI s {| prog := pg; tpc := p; held := held th; taken := taken th; accs := a'; results := rs |}.
+  forall pg rs fb, TI s {| prog := pg; tpc := p; held := held th; taken := taken th; accs := a'; results := rs; fbase := fb |}.
 Proof.
-  intros s th p a' (A & B & _ & Qa) P Hsub pg rs. split; [|split; [|split]]; simpl; auto.
+  intros s th p a' (A & B & _ & Qa) P Hsub pg rs fb. split; [|split; [|split]]; simpl; auto.
 Qed.
 
 (* the part of an OAcTake step after the CAS: holder h := (ok, id), the temporary = old content of holder h dies *)
@@ -841,8 +841,8 @@ Qed.
 
 Lemma accdrop_good : forall s ths t th h, Good s ths -> nth_error ths t = Some th -> tpc th = Idle ->
   fst (get_acc (accs th) h) = true ->
-  Good (inc_fin s) (set_nth t (cont (set_accs th (set_acc h empty_acc (accs th)))
-                                   (FStore (fst (snd (get_acc (accs th) h))) (hv s) (hk s)) (held th) (taken th)) ths).
+  Good (inc_fin s) (set_nth t (with_base (cont (set_accs th (set_acc h empty_acc (accs th)))
+                                   (FStore (fst (snd (get_acc (accs th) h))) (hv s) (hk s)) (held th) (taken th)) (hk s)) ths).
 Proof.
   intros s ths t th h G Hn Hpc Harm. pose proof (g_thr _ _ G _ _ Hn) as HT. pose proof HT as (A & B & _ & Qa).
   apply good_inc_fin. apply (good_local s ths t th); auto.
@@ -855,7 +855,7 @@ Proof.
 Qed.
 
 Lemma dload_good : forall s ths t th v, Good s ths -> nth_error ths t = Some th -> tpc th = DLoad v ->
-  Good s (set_nth t (goto th (FStore v (hv s) (hk s))) ths).
+  Good s (set_nth t (with_base (goto th (FStore v (hv s) (hk s))) (hk s)) ths).
 Proof.
   intros s ths t th v G Hn Hpc. pose proof (g_thr _ _ G _ _ Hn) as HT. pose proof HT as (A & B & P & Qa).
   rewrite Hpc in P. simpl in P. apply (good_local s ths t th); auto.
@@ -1312,4 +1312,49 @@ Lemma id_example_box : exists s, Reach cU ex_box s /\ nv (sh s) <= ACTc cU /\ qu
   ids (sh s) = [(0, 0); (0, 1)] /\ wins (sh s) = [(0, 0)] /\ boxed (sh s) = [(0, 1)] /\ live cU (sh s) = [0].
 Proof.
   eexists. split; [exists (repeat 0%nat 30); reflexivity|]. vm_compute. repeat split; try reflexivity. discriminate.
+Qed.
+
+(* ---------------------------------------------------------------- the head version is a push counter (unbounded) *)
+(* every step either leaves the head version alone (and the free list unchanged or popped) or is a successful push and
+   bumps it by exactly one - this is where the position of `id.version = current_head.version + 1` INSIDE the CAS retry
+   loop (Gen: push_bump_in_loop) is used: the bump is relative to the head the successful CAS compared against *)
+Lemma tstep_hk : forall c s th s' th', vmod c = 0 -> tstep c s th = Some (s', th') ->
+  (hk s' = hk s /\ (fl s' = fl s \/ fl s' = tl (fl s))) \/ (hk s' = hk s + 1 /\ exists v, fl s' = v :: fl s).
+Proof.
+  intros c s th s' th' Hvm Hs. unfold tstep in Hs.
+  assert (Wk : forall k, wrapk c k = k) by (intros; unfold wrapk; now rewrite Hvm).
+  destruct (tpc th) eqn:Hpc.
+  - destruct (prog th) as [|o r]; [discriminate|].
+    destruct o; repeat match type of Hs with
+                       | context [match ?x with _ => _ end] => destruct x
+                       end; inversion Hs; subst; simpl; auto.
+  - inversion Hs; subst; auto.
+  - destruct ((hv s =? cv) && (hk s =? ck)) eqn:E; inversion Hs; subst; simpl; auto.
+    apply andb_prop in E. destruct E as [_ E2]. apply Z.eqb_eq in E2. rewrite Wk. unfold pop_new_version. left. auto.
+  - inversion Hs; subst; simpl; auto.
+  - inversion Hs; subst; simpl; auto.
+  - inversion Hs; subst; simpl; auto.
+  - inversion Hs; subst; simpl; auto.
+  - destruct ((hv s =? cv) && (hk s =? ck)) eqn:E; inversion Hs; subst; simpl; auto.
+    apply andb_prop in E. destruct E as [_ E2]. apply Z.eqb_eq in E2. rewrite Wk. unfold push_new_version. simpl.
+    right. split; [lia|eauto].
+  - inversion Hs; subst; simpl; auto.
+  - inversion Hs; subst; simpl; auto.
+Qed.
+
+Theorem id_push_bumps_version : forall c s t s', vmod c = 0 -> step c s t = Some s' ->
+  (hk (sh s') = hk (sh s) /\ (fl (sh s') = fl (sh s) \/ fl (sh s') = tl (fl (sh s)))) \/
+  (hk (sh s') = hk (sh s) + 1 /\ exists v, fl (sh s') = v :: fl (sh s)).
+Proof.
+  intros c s t s' Hvm Hs. unfold step in Hs. destruct (nth_error (threads s) t) as [th|]; [|discriminate].
+  destruct (tstep c (sh s) th) as [[s1 th1]|] eqn:E; [|discriminate]. inversion Hs; subst. simpl.
+  eapply tstep_hk; eauto.
+Qed.
+
+(* along any execution the head version never decreases *)
+Theorem id_head_version_monotone : forall c sch s, vmod c = 0 -> hk (sh s) <= hk (sh (run st (step c) s sch)).
+Proof.
+  intros c sch. induction sch as [|t r IH]; intros s Hvm; simpl; [lia|].
+  eapply Z.le_trans; [|apply IH; auto]. unfold step_or_stay. destruct (step c s t) eqn:E; [|lia].
+  destruct (id_push_bumps_version c s t s0 Hvm E) as [[H _]|[H _]]; lia.
 Qed.
